@@ -28,6 +28,7 @@ type Scenario struct {
 	Bound      int // preemption bound (<0: unbounded)
 	Record     bool
 	Poison     bool
+	QuietPop   bool // reduction: iterator Next calls that only pop an already fetched item are not scheduling points
 	PostClose  []Op // operations main runs after the threads joined and after Close (use-after-close probes)
 }
 
@@ -51,7 +52,7 @@ func (sc *Scenario) JSON() map[string]interface{} {
 		ts = append(ts, w)
 	}
 	return map[string]interface{}{"name": sc.Name, "base": sc.Base, "cfg": sc.Cfg, "threads": ts, "fs_yield": sc.FSYield, "track_races": sc.TrackRaces,
-		"worker": sc.Worker, "tick_budget": sc.TickBudget, "bound": sc.Bound, "poison": sc.Poison}
+		"worker": sc.Worker, "tick_budget": sc.TickBudget, "bound": sc.Bound, "poison": sc.Poison, "quiet_pop": sc.QuietPop}
 }
 
 // Event is one completed operation of a thread.
@@ -66,6 +67,7 @@ type Event struct {
 	N      int
 	Err    string
 	Pairs  [][2]string // Scan: pairs in the order returned
+	PairT  []int       // Scan/IterNext: logical time at which the Next call that returned the pair returned
 	LogPos int         // length of the FS op log when the call returned
 	LogAt  int         // length of the FS op log when the call was made
 }
@@ -130,7 +132,11 @@ func (r *ConcRun) Signature() string {
 	for _, e := range evs {
 		switch e.Op.Kind {
 		case Get, GetAppend, Has, Count, Scan, FileSize:
-			parts = append(parts, fmt.Sprintf("%d.%d=%s/%v/%d/%d", e.Thread, e.Idx, e.Val, e.Found, e.N, len(e.Pairs)))
+			ph := ""
+			if len(e.Pairs) > 0 {
+				ph = fmt.Sprintf("%x", Hash64(fmt.Sprint(e.Pairs)))
+			}
+			parts = append(parts, fmt.Sprintf("%d.%d=%s/%v/%d/%d%s", e.Thread, e.Idx, e.Val, e.Found, e.N, len(e.Pairs), ph))
 		}
 		if e.Err != "" {
 			parts = append(parts, fmt.Sprintf("%d.%d!%s", e.Thread, e.Idx, e.Err))
@@ -146,10 +152,27 @@ func (r *ConcRun) Signature() string {
 
 // sharedIter is the iterator shared by IterNext operations of all threads.
 type concState struct {
-	iter *pogreb.ItemIterator
+	iter     *pogreb.ItemIterator
+	quietPop bool
+}
+
+// iterNext calls Next; with the QuietPop reduction a call that only pops an item fetched earlier runs
+// without scheduling points (its transitions touch iterator-local state only and commute with every
+// other thread; what it returns was fixed when the bucket was fetched).
+func iterNext(it *pogreb.ItemIterator, quietPop bool) (k, v []byte, err error) {
+	if quietPop {
+		q := 0
+		vsync.Quiet(func() { q = it.VerifQueued() })
+		if q > 0 {
+			vsync.Quiet(func() { k, v, err = it.Next() })
+			return
+		}
+	}
+	return it.Next()
 }
 
 func execOp(s *Sess, st *concState, thread, idx int, o Op, r *ConcRun) {
+	quietPop := st.quietPop
 	e := Event{Thread: thread, Idx: idx, Op: o, LogAt: len(s.FS.Log)}
 	e.Call = vsync.LogicalTime()
 	db := s.DB
@@ -196,7 +219,7 @@ func execOp(s *Sess, st *concState, thread, idx int, o Op, r *ConcRun) {
 	case Scan:
 		it := db.Items()
 		for n := 0; n < 100000; n++ {
-			k, v, err := it.Next()
+			k, v, err := iterNext(it, quietPop)
 			if err == pogreb.ErrIterationDone {
 				break
 			}
@@ -205,9 +228,21 @@ func execOp(s *Sess, st *concState, thread, idx int, o Op, r *ConcRun) {
 				break
 			}
 			e.Pairs = append(e.Pairs, [2]string{string(k), string(v)})
+			e.PairT = append(e.PairT, vsync.LogicalTime())
+			if n == 99999 {
+				e.Err = "scan did not terminate within 100000 Next calls"
+			}
 		}
+		// Further calls: on a quiescent database they must keep returning ErrIterationDone (checked by
+		// the quiescent oracles); with concurrent writers a later index split may legitimately add a
+		// bucket behind the scan position, so a pair is recorded (and must be truthful), only an error is not accepted.
 		for i := 0; i < 2 && e.Err == ""; i++ {
-			if _, _, err := it.Next(); err != pogreb.ErrIterationDone {
+			k, v, err := iterNext(it, quietPop)
+			if err == nil {
+				e.Pairs = append(e.Pairs, [2]string{string(k), string(v)})
+				e.PairT = append(e.PairT, vsync.LogicalTime())
+				e.N++ // pairs returned after ErrIterationDone
+			} else if err != pogreb.ErrIterationDone {
 				e.Err = fmt.Sprintf("Next after the end of the scan returned %v", err)
 			}
 		}
@@ -215,12 +250,15 @@ func execOp(s *Sess, st *concState, thread, idx int, o Op, r *ConcRun) {
 		if st.iter == nil {
 			st.iter = db.Items()
 		}
-		k, v, err := st.iter.Next()
+		k, v, err := iterNext(st.iter, quietPop)
 		if err != nil && err != pogreb.ErrIterationDone {
 			seterr(err)
 		}
 		if err == nil {
 			e.Pairs = append(e.Pairs, [2]string{string(k), string(v)})
+			e.PairT = append(e.PairT, vsync.LogicalTime())
+		} else if err == pogreb.ErrIterationDone {
+			e.N = 1 // iteration done
 		}
 	case Compact:
 		cr, err := db.Compact()
@@ -274,7 +312,7 @@ func RunScenario(sc *Scenario, base *Base, prefix []int, keepTrace bool, sleep .
 			}
 		}
 	}
-	st := &concState{}
+	st := &concState{quietPop: sc.QuietPop}
 	main := func() {
 		opts := s.Cfg.Options(s.FS)
 		if sc.Worker {
@@ -435,24 +473,20 @@ func ExploreScenario(c *Ctx, sc *Scenario, base *Base, slice time.Time, check fu
 		deadline = slice
 	}
 	st.CompletedBound = -2 // nothing completed
-	bounds := []int{sc.Bound}
-	if sc.Bound < 0 {
-		bounds = []int{0, 1, 2, 3, 4, 6, 8, 12, 1 << 20}
+	type pass struct {
+		bound int
+		cap   int64
 	}
-	for bi, b := range bounds {
-		ex := &vsync.Explorer{Bound: b, Deadline: deadline, Run: run, Check: func(x *vsync.Exec) bool { return viol == nil }}
-		if bi == 0 && len(bounds) > 1 {
-			// small scenarios: try the complete (unbounded) exploration first, capped; fall back to iterative bounding
-			ex.Bound = 1 << 20
-			ex.MaxExecs = 5000
-		}
+	const fullB = 1 << 20
+	passes := []pass{{sc.Bound, 0}}
+	if sc.Bound < 0 {
+		// cheap low bounds first (so that a time slice always completes something), then a capped attempt
+		// at the complete space (small scenarios finish here), then iterative bounding up to the complete space
+		passes = []pass{{0, 0}, {1, 0}, {fullB, 5000}, {2, 0}, {3, 0}, {4, 0}, {6, 0}, {8, 0}, {12, 0}, {fullB, 0}}
+	}
+	for _, p := range passes {
+		ex := &vsync.Explorer{Bound: p.bound, Deadline: deadline, MaxExecs: p.cap, Run: run, Check: func(x *vsync.Exec) bool { return viol == nil }}
 		ex.Explore()
-		if bi == 0 && len(bounds) > 1 && ex.Truncated && viol == nil && time.Now().Before(deadline) {
-			st.Execs += ex.Execs
-			st.Points += ex.Points
-			ex = &vsync.Explorer{Bound: b, Deadline: deadline, Run: run, Check: func(x *vsync.Exec) bool { return viol == nil }}
-			ex.Explore()
-		}
 		st.Execs += ex.Execs
 		st.Points += ex.Points
 		if ex.MaxDepth > st.MaxDepth {
@@ -462,10 +496,13 @@ func ExploreScenario(c *Ctx, sc *Scenario, base *Base, slice time.Time, check fu
 			break
 		}
 		if ex.Truncated {
+			if p.cap > 0 && ex.Execs >= p.cap && time.Now().Before(deadline) {
+				continue // the capped attempt did not finish: go on with iterative bounding
+			}
 			st.Truncated = true
 			break
 		}
-		st.CompletedBound = b
+		st.CompletedBound = p.bound
 		st.LastPassExecs = ex.Execs
 		if ex.Skipped == 0 {
 			st.CompletedBound = -1 // unbounded: no alternative was cut by the bound
